@@ -14,6 +14,7 @@ from pv.programs import _jsonable
 
 ID = 'C07'
 TITLE = 'save / load / save round trip'
+ANCHORS = ['plumpy.persistence:Savable.save_members', 'plumpy.persistence:Savable.load_members', 'plumpy.processes:Process.save_instance_state', 'plumpy.processes:Process.load_instance_state', 'plumpy.workchains:WorkChain.save_instance_state', 'plumpy.persistence:_bundle_representer', 'plumpy.persistence:_bundle_constructor', 'plumpy.persistence:SavableFuture.recreate_from']
 LEVEL = 'exploration'
 TECHNIQUE = ('runtime monitoring by round-trip differential: at every state entry and every paused point of generated runs the process is bundled, '
              'carried through deepcopy / pickle / YAML with the default or a custom object loader, unbundled and bundled again; the two bundles are '
